@@ -53,7 +53,12 @@ Record facts := {
   f_cache_typed_scalars : bool;
   f_cache_per_class : bool;
   (* BasicErrorHandler.add starts with a deep copy of the error and only then rewrites paths *)
-  f_handler_add_copies : bool
+  f_handler_add_copies : bool;
+  (* F14: every statement of the normalization functions that writes through `mapping` / `schema`:
+     (function, root, depth of the written container below the root, mapping[field] re-bound to a copy first?) *)
+  f_write_sites : list (string * string * nat * bool);
+  (* self.document = copy(document) on entry; schema = schema.copy() before references are resolved *)
+  f_entry_copies : bool
 }.
 
 Definition errdef (F : facts) (name : string) : Z * option string :=
